@@ -188,7 +188,12 @@ class SimpleClient:
     def disconnect(self):
         """Disconnect from the server."""
         if self.connected:
-            self.client.disconnect()
+            if self.client.connected:
+                self.client.disconnect()
+            else:
+                # the connection is down at the moment: the reconnection
+                # that is in progress is ended
+                self.client.shutdown()
             self.client = None
             self.connected = False
 
